@@ -8,7 +8,7 @@ NUMS = [b"", b"0", b"1", b"2", b"7", b"32", b"-1", b"-3", b"+5", b" 7", b"7 ", b
         b"4294967295", b"4294967296", b"4294967297", b"99999999999", b"18446744073709551615", b"18446744073709551616", b"99999999999999999999999", b"007", b"1.5"]
 GOOD = [b"1", b"2", b"5", b"17", b"64", b"300"]
 USERS = [b"root", b"alice", b"u" * 16, b"u" * 255, b"u" * 256, b"u" * 257, b"u" * 400]
-RCMDS = [b"exec", b"exec", b"nosuch", b"rsh"]
+RCMDS = [b"exec", b"exec", b"exec", b"nosuch", b"rsh", b"ex", b"e", b"", b"execx", b"EXEC"]   # only "exec" is loaded; prefixes of it are unknown names
 ENVN = ["FANOUT", "PDSH_CONNECT_TIMEOUT", "PDSH_COMMAND_TIMEOUT", "PDSH_RCMD_TYPE", "PDSH_MISC_MODULES", "PDSH_REMOTE_PDCP_PATH"]
 
 
@@ -158,7 +158,10 @@ def run(ctx):
         args = []
         for l, v in opts:
             args += ["-" + l, v]
-        args += ["-q", "-w", "h1"] + (["/etc/hostname", "/tmp"] if pcp else [])
+        # the target word comes last, or first and names the (valid) transport itself: a transport already in use must not make
+        # a later unknown name acceptable
+        wfirst = (len(args) + len(env)) % 3 == 0
+        args = (["-w", "exec:h1"] + args + ["-q"] if wfirst else args + ["-q", "-w", "h1"]) + (["/etc/hostname", "/tmp"] if pcp else [])
         e = {k: v for k, v in env.items()}
         rc, o, er = real.run(args, prog=prog, env=e, timeout=15)
         if rc == -999:
@@ -171,7 +174,7 @@ def run(ctx):
             obs = ("REFUSED", rc, er[-200:])
             dist["refused"] += 1
         if obs[0] == "RUN" and not pcp:
-            rc2, o2, er2 = real.run(args[:-3] + ["-L"], prog=prog, env=e, timeout=15)
+            rc2, o2, er2 = real.run([a for a in args if a != "-q"] + ["-L"], prog=prog, env=e, timeout=15)
             obs[1]["active_misc"] = active_misc(o2 + er2)
         observed.append(obs)
         envf = [hexs(env[k]) if k in env and env[k] != b"" else ("_" if k not in env else "-") for k in ENVN]
@@ -222,6 +225,21 @@ def run(ctx):
                 break
         if len(samples) < 3 and len(opts) >= 2 and env:
             samples.append({"prog": prog, "env": {k: v.decode("latin-1") for k, v in env.items()}, "opts": [(l, v.decode("latin-1")[:20]) for l, v in opts], "observed": obs[0]})
+    # a valid fanout is the fanout, and pdsh neither refuses nor hangs, whatever the descriptor limit of the process is
+    # (real children through the exec transport; the limit is the hard limit, so pdsh cannot raise it)
+    real2 = realeng.Real(ctx, tag="real18x")
+    nlow = 0
+    for nofile, f, n in ((32, 4, 3), (36, 4, 6), (40, 8, 5), (64, 2, 4)) if bad < 6 else ():
+        rc, o, er = real2.run(["-R", "exec", "-f", str(f), "-w", "h[1-%d]" % n, "echo", "%h"], timeout=25, nofile=nofile)
+        nlow += 1
+        got = sorted(l for l in o.decode("latin-1").split("\n") if l)
+        want = sorted("h%d: h%d" % (k, k) for k in range(1, n + 1))
+        if rc == -999 or (rc == 0 and got != want):
+            bad += 1
+            ctx.violation("input", case={"descriptor_limit": nofile, "opts": [("f", str(f))], "targets": n}, expected="the command runs on all %d targets" % n,
+                          observed="hang (25 s)" if rc == -999 else "exit %d, output %r" % (rc, got[:6]), engine="exec",
+                          detail="pdsh -R exec -f %d on %d targets under a descriptor limit of %d %s" % (f, n, nofile, "hangs" if rc == -999 else "does not run the command everywhere"))
+    dist["low_descriptor_limit_runs"] = nlow
     have_input = any(v["kind"] != "no-failing-input-found" for v in ctx.violations)
     vlib.report_proof_break(ctx, have_input)
     cov = vlib.proof_coverage(ctx, {
